@@ -107,6 +107,22 @@ def post_explore(ctx, res, pids, opts):
                     if fp != ref_probe:
                         ctx.report("C04", "behaviour_after_reset_differs_from_fresh_environment", key=key,
                                    detail={"probe_history": probe})
+        # ------------------------------------------------------------ C06: "since the last reset"
+        if want_limit and (seen[key] < 60 or seen[key] % 5 == 0):
+            for k in (d0, d0 + 2):
+                env.current_state = s
+                env.steps = k
+                env.reset()
+                a0 = 0
+                seam.arm(draw_values(ctx.mactions[a0]["prob"])["below"])
+                o, r, done, trunc, info = env.step(ctx.actions[a0])
+                counts["steps"] += 1
+                want_tr = (limit is not None) and (1 >= limit)
+                if env.steps != 1 or bool(trunc) != want_tr:
+                    ctx.report("C06", "step_count_since_last_reset_wrong", key=key,
+                               detail={"steps_before_reset": k, "steps_after_reset_and_one_step": env.steps,
+                                       "step_limit": limit, "flag": bool(trunc)})
+                    break
         # ------------------------------------------------------------ step from here
         if not (want_limit or want_agree):
             continue
